@@ -1,5 +1,1052 @@
-"""Breadth part of C04 (to be extended): run read-only entry points twice, compare snapshots and outcomes."""
+"""Breadth part of C04: every read-only entry point is pure and blind to hidden state.
+
+For every case (entry point x variant x fixture) the recorder
+  * builds the argument objects (measured sample isotherms the repository's own tests use, synthetic ones),
+  * builds fresh equal copies through the constructors (to_dict() + data_raw.copy(), new Adsorbate/Material objects),
+  * snapshots every argument (iso_id, labels, data by value, metadata, adsorbate, material) and the
+    module-level state (registries by value, class defaults, tables) before, after the first and after the second call,
+  * records the outcome of: first call, second call, the call on the fresh copies, the call with all hidden state
+    cleared (cold), the call after the hidden state was filled through ANOTHER resource / state point (cross).
+Nothing is judged here: the log goes to TLC (spec/PureTrace.tla, clauses of spec/Pure.tla), which names every
+failing clause.  Python only computes the float64 distance between numeric payloads, as the specification asks.
+"""
+import contextlib
+import copy
+import hashlib
+import io
+import os
+import shutil
+import time
+from concurrent.futures import ThreadPoolExecutor
+
+import numpy
+
+from .common import REPO, MachineryError, exc_class
+from . import tlc
+from .encode import dec_enc
+
+DEFECTS = ("inplace", "stale_interp", "key_ignored", "no_update", "fit_leaks")
+
+
+# --------------------------------------------------------------------------- digests
+def _sha(s):
+    return hashlib.sha1(s.encode("utf8", "surrogatepass")).hexdigest()[:16]
+
+
+def _val(x):
+    """order-insensitive, type-sensitive text of a metadata value"""
+    if isinstance(x, dict):
+        return "{" + ",".join(f"{_val(k)}:{_val(v)}" for k, v in sorted(x.items(), key=lambda kv: str(kv[0]))) + "}"
+    if isinstance(x, (list, tuple)):
+        return type(x).__name__ + "(" + ",".join(_val(v) for v in x) + ")"
+    if isinstance(x, numpy.ndarray):
+        return f"ndarray[{x.dtype}]" + _val(x.tolist())
+    if isinstance(x, numpy.generic):
+        return f"{type(x).__name__}:{x.item()!r}"
+    if isinstance(x, (str, int, float, bool)) or x is None:
+        return f"{type(x).__name__}:{x!r}"
+    return f"{type(x).__name__}:{x!r}"
+
+
+def df_digest(df):
+    h = hashlib.sha1()
+    h.update(repr([str(c) for c in df.columns]).encode())
+    h.update(repr(list(df.index)).encode())
+    h.update(repr([str(t) for t in df.dtypes]).encode())
+    for c in df.columns:
+        a = df[c].to_numpy()
+        if a.dtype.kind in "fiub":
+            h.update(numpy.ascontiguousarray(a).tobytes())
+        else:
+            h.update(_val(a.tolist()).encode("utf8", "surrogatepass"))
+    return h.hexdigest()[:16]
+
+
+def _props(d):
+    """order-insensitive, type-sensitive text of a properties dictionary (fast path: string keys, plain values)"""
+    try:
+        return repr(sorted(d.items(), key=lambda kv: kv[0]))
+    except TypeError:
+        return _val(d)
+
+
+def ads_text(a):
+    return f"{a.name}|{a.alias!r}|{_props(a.properties)}"
+
+
+def mat_text(m):
+    return f"{m.name}|{_props(m.properties)}"
+
+
+def obs_adsorbate(a):
+    return {"kind": "Adsorbate", "name": str(a.name), "alias": repr(list(a.alias)), "properties": _sha(_props(a.properties))}
+
+
+def obs_material(m):
+    return {"kind": "Material", "name": str(m.name), "properties": _sha(_props(m.properties))}
+
+
+def obs_iso(iso):
+    """the observable state of an isotherm, as the property lists it (identifier, labels, data, properties)"""
+    o = {"kind": type(iso).__name__}
+    u = iso.units
+    o["labels"] = ",".join(f"{k}={u[k]}" for k in sorted(u))
+    o["temperature"] = repr(iso._temperature)
+    o["meta"] = _sha(_val(iso.properties))
+    o["adsorbate"] = _sha(ads_text(iso.adsorbate))
+    o["material"] = _sha(mat_text(iso.material))
+    if hasattr(iso, "data_raw"):
+        o["data"] = df_digest(iso.data_raw) + f"/{iso.pressure_key}/{iso.loading_key}/{list(iso.other_keys)!r}"
+    elif hasattr(iso, "model"):
+        m = iso.model
+        o["data"] = _sha(_val([m.name, m.params, m.rmse, list(m.pressure_range), list(m.loading_range), getattr(iso, "branch", None),
+                               getattr(m, "param_bounds", None)]))
+    else:
+        o["data"] = "-"
+    # the identifier last: computing it is itself a library call (to_dict, hashing); whatever it might move is digested above first
+    try:
+        o["iso_id"] = str(iso.iso_id)
+    except Exception as e:  # e.g. numpy integers in model ranges: the id itself raises
+        o["iso_id"] = "exception:" + exc_class(e)
+    return o
+
+
+def peek(x):
+    """human-readable summary kept beside the digests (never judged)"""
+    import pygaps
+    if isinstance(x, dict):
+        return {"dict": repr(x)[:300]}
+    if isinstance(x, pygaps.Adsorbate):
+        return {"adsorbate": ads_text(x)[:300]}
+    if isinstance(x, pygaps.Material):
+        return {"material": mat_text(x)[:300]}
+    p = {"units": dict(x.units), "temperature": x._temperature, "material": mat_text(x.material)[:200], "adsorbate_properties": sorted(x.adsorbate.properties)[:40]}
+    if hasattr(x, "data_raw"):
+        d = x.data_raw
+        p["columns"] = [str(c) for c in d.columns]
+        p["index_head"] = list(d.index[:4])
+        p["pressure_head"] = d[x.pressure_key].tolist()[:4]
+        p["loading_head"] = d[x.loading_key].tolist()[:4]
+        p["dtypes"] = [str(t) for t in d.dtypes]
+    elif hasattr(x, "model"):
+        p["model"] = [x.model.name, dict(x.model.params)]
+    p["properties"] = {str(k): repr(v)[:60] for k, v in list(x.properties.items())[:12]}
+    return p
+
+
+def obs_any(x):
+    import pygaps
+    if isinstance(x, dict):
+        return {"kind": "dict", "content": _sha(_val(x))}
+    if isinstance(x, pygaps.Adsorbate):
+        return obs_adsorbate(x)
+    if isinstance(x, pygaps.Material):
+        return obs_material(x)
+    return obs_iso(x)
+
+
+_CLASS_ATTRS = ("name", "formula", "calculates", "param_names", "param_default_bounds", "params", "param_bounds", "pressure_range", "loading_range", "rmse")
+
+
+def obs_globals():
+    """module-level state a read-only call has no business changing (the caches proper are hidden state and not listed)"""
+    import importlib
+    import pygaps
+    import pygaps.modelling as pgm
+    from pygaps.core.baseisotherm import BaseIsotherm
+    from pygaps.core.pointisotherm import PointIsotherm
+    from pygaps.core.modelisotherm import ModelIsotherm
+    import pygaps.characterisation.models_hk as hk
+    import pygaps.characterisation.models_thickness as mt
+    import pygaps.characterisation.psd_kernel as pk
+    import pygaps.units.converter_unit as cu
+    import pygaps.units.converter_mode as cmode
+    d = []
+    for cls in (BaseIsotherm, PointIsotherm, ModelIsotherm):
+        d.append([cls.__name__, cls._unit_params, list(cls._required_params), list(cls._reserved_params)])
+    d.append([list(pgm._MODELS), list(pgm._GUESS_MODELS), list(getattr(pgm, "_IAST_MODELS", []))])
+    for name in pgm._MODELS:
+        mod = importlib.import_module("pygaps.modelling." + name.lower())
+        cls = getattr(mod, name)
+        d.append([name] + [repr(cls.__dict__.get(a, "-")) for a in _CLASS_ATTRS])
+    d.append([hk.HK_KEYS, {k: v for k, v in hk._ADSORBENT_MODELS.items()}])
+    d.append([sorted(mt._THICKNESS_MODELS), dict(pk.KERNELS)])
+    d.append([cu._PRESSURE_UNITS, cu._MOLAR_UNITS, cu._MASS_UNITS, cu._VOLUME_UNITS, cu._TEMPERATURE_UNITS])
+    d.append([sorted(cmode._PRESSURE_MODE), sorted(cmode._LOADING_MODE), sorted(cmode._MATERIAL_MODE)])
+    try:
+        from pygaps.utilities.coolprop_utilities import thermodynamic_backend
+        d.append(thermodynamic_backend())
+    except Exception:
+        d.append("-")
+    return {
+        "kind": "globals",
+        "adsorbates": _sha("\n".join(ads_text(a) for a in pygaps.ADSORBATE_LIST)),
+        "materials": _sha("\n".join(mat_text(m) for m in pygaps.MATERIAL_LIST)),
+        "defaults": _sha(_val(d)),
+    }
+
+
+# --------------------------------------------------------------------------- outcomes
+class Canon:
+    """splits a result into everything discrete (shape text) and its numeric payload (list of float arrays)"""
+
+    def __init__(self):
+        self.shape = []
+        self.leaves = []
+
+    def leaf(self, a):
+        a = numpy.asarray(a, dtype=float)
+        bad = ~numpy.isfinite(a)
+        if bad.any():
+            self.shape.append("nonfinite:" + _sha(repr(numpy.argwhere(bad).tolist()) + repr(a[bad].tolist())))
+            a = numpy.where(bad, 0.0, a)
+        self.shape.append(f"f{list(a.shape)}")
+        self.leaves.append(a.ravel())
+
+    def walk(self, x):
+        import pandas
+        s = self.shape
+        if x is None or isinstance(x, (bool, str, numpy.bool_)):
+            s.append(f"{type(x).__name__}:{x!r}")
+        elif isinstance(x, (int, numpy.integer)):
+            s.append(f"i:{int(x)}")
+        elif isinstance(x, (float, numpy.floating)):
+            self.leaf(x)
+        elif isinstance(x, numpy.ndarray):
+            if x.dtype.kind == "f":
+                self.leaf(x)
+            elif x.dtype.kind in "iub":
+                s.append(f"int{list(x.shape)}:" + _sha(repr(x.tolist())))
+            else:
+                s.append(f"obj{list(x.shape)}[")
+                for v in x.ravel().tolist():
+                    self.walk(v)
+                s.append("]")
+        elif isinstance(x, dict):
+            s.append("{")
+            for k in sorted(x, key=str):
+                s.append(f"{k!s}=")
+                self.walk(x[k])
+            s.append("}")
+        elif isinstance(x, (list, tuple)):
+            if len(x) > 0 and all(isinstance(v, (float, numpy.floating)) for v in x):
+                s.append(type(x).__name__)
+                self.leaf(list(x))
+            else:
+                s.append(f"{type(x).__name__}{len(x)}[")
+                for v in x:
+                    self.walk(v)
+                s.append("]")
+        elif isinstance(x, pandas.DataFrame):
+            s.append("DataFrame" + repr([str(c) for c in x.columns]) + repr(list(x.index)[:3]))
+            for c in x.columns:
+                self.walk(x[c].to_numpy())
+        elif isinstance(x, pandas.Series):
+            s.append("Series" + repr(list(x.index)[:3]))
+            self.walk(x.to_numpy())
+        elif hasattr(x, "model") and hasattr(x, "units") and hasattr(x, "adsorbate"):      # a ModelIsotherm result
+            m = x.model
+            s.append(f"ModelIsotherm:{m.name}:{getattr(x, 'branch', None)}:{sorted(x.units.items())!r}:{x.material.name!r}:{x.adsorbate.name!r}")
+            s.append(_sha(_val(x.properties)) + ":" + _sha(mat_text(x.material)))
+            self.walk({"params": dict(m.params), "rmse": m.rmse, "prange": list(m.pressure_range), "lrange": list(m.loading_range), "T": x._temperature})
+        elif hasattr(x, "data_raw") and hasattr(x, "units"):                                 # a PointIsotherm result
+            s.append(f"PointIsotherm:{sorted(x.units.items())!r}:{x.material.name!r}:{x.adsorbate.name!r}:" + _sha(_val(x.properties)))
+            self.walk(x.data_raw)
+        elif type(x).__name__ in ("Axes", "AxesSubplot") or hasattr(x, "get_lines") and hasattr(x, "get_xlabel"):
+            s.append(f"Axes:{x.get_xlabel()}:{x.get_ylabel()}:{x.get_title()}:{x.get_xscale()}:{x.get_yscale()}")
+            lines = x.get_lines()
+            s.append(f"lines{len(lines)}")
+            for ln in lines:
+                s.append(f"{ln.get_label()}|{ln.get_marker()}|{ln.get_linestyle()}")
+                self.walk(numpy.asarray(ln.get_xdata(), dtype=float))
+                self.walk(numpy.asarray(ln.get_ydata(), dtype=float))
+            leg = x.get_legend()
+            s.append("legend:" + (repr([t.get_text() for t in leg.get_texts()]) if leg is not None else "-"))
+            self.walk([float(v) for v in x.get_xlim()] + [float(v) for v in x.get_ylim()])
+        else:
+            s.append("object:" + type(x).__name__)
+
+
+def outcome_of(f):
+    """run f() -> {'kind','shape','text', 'leaves'}; stdout is part of the outcome (print_info, verbose output)"""
+    import matplotlib.pyplot as plt
+    buf = io.StringIO()
+    try:
+        with contextlib.redirect_stdout(buf):
+            r = f()
+        c = Canon()
+        try:
+            c.walk(r)
+        except Exception as e:
+            raise MachineryError(f"cannot canonicalise a result of type {type(r).__name__}: {exc_class(e)}: {e}") from e
+        if buf.getvalue():
+            c.shape.append("stdout:" + buf.getvalue())
+        text = "".join(c.shape)
+        out = {"kind": "value", "shape": _sha(text), "text": text[:400], "leaves": c.leaves}
+    except MachineryError:
+        raise
+    except Exception as e:
+        out = {"kind": "error", "shape": exc_class(e), "text": f"{exc_class(e)}: {str(e)[:200]}", "leaves": []}
+    finally:
+        plt.close("all")
+    return out
+
+
+HUGE = 1e30
+
+
+def distance(a, b):
+    """float64 relative distance of two numeric payloads (max-norm per array, relative to the larger array norm)"""
+    if a["kind"] != b["kind"] or a["shape"] != b["shape"] or len(a["leaves"]) != len(b["leaves"]):
+        return HUGE
+    d = 0.0
+    for x, y in zip(a["leaves"], b["leaves"]):
+        if x.shape != y.shape:
+            return HUGE
+        if x.size == 0:
+            continue
+        scale = max(float(numpy.max(numpy.abs(x))), float(numpy.max(numpy.abs(y))))
+        if scale == 0.0:
+            continue
+        d = max(d, float(numpy.max(numpy.abs(x - y))) / scale)
+    return d
+
+
+# --------------------------------------------------------------------------- fresh equal objects
+def fresh_adsorbate(a):
+    import pygaps
+    return pygaps.Adsorbate(a.name, alias=list(a.alias), **copy.deepcopy(a.properties))
+
+
+def fresh_material(m):
+    import pygaps
+    return pygaps.Material(m.name, **copy.deepcopy(m.properties))
+
+
+def fresh(x):
+    """an equal object rebuilt through the constructor (deepcopy fails once a CoolProp state exists)"""
+    import pygaps
+    import pygaps.modelling as pgm
+    if isinstance(x, dict):
+        return copy.deepcopy(x)
+    if isinstance(x, pygaps.Adsorbate):
+        return fresh_adsorbate(x)
+    if isinstance(x, pygaps.Material):
+        return fresh_material(x)
+    d = copy.deepcopy({k: v for k, v in x.to_dict().items() if k not in ("adsorbate", "material")})
+    d["adsorbate"] = str(x.adsorbate)           # (an Adsorbate object cannot be passed: the constructor's None test calls Adsorbate.__eq__(None))
+    d["material"] = fresh_material(x.material)
+    if hasattr(x, "data_raw"):
+        y = pygaps.PointIsotherm(isotherm_data=x.data_raw.copy(), pressure_key=x.pressure_key, loading_key=x.loading_key, **d)
+    elif hasattr(x, "model"):
+        md = copy.deepcopy(x.model.to_dict())
+        d.pop("branch", None)
+        y = pygaps.ModelIsotherm(model=pgm.model_from_dict(md), branch=x.branch, **d)
+    else:
+        y = pygaps.core.baseisotherm.BaseIsotherm(**d)
+    y.adsorbate = fresh_adsorbate(x.adsorbate)    # public setter; a new object with its own (empty) thermodynamic state
+    return y
+
+
+def clear_hidden():
+    import pygaps.characterisation.models_thickness as mt
+    import pygaps.characterisation.psd_kernel as pk
+    mt._LOADED.clear()
+    pk._LOADED.clear()
+
+
+def perturb_backend(objs):
+    """leave the thermodynamic state object of every adsorbate involved at some other state point"""
+    import pygaps
+    for x in objs.values():
+        a = x if isinstance(x, pygaps.Adsorbate) else getattr(x, "adsorbate", None)
+        if a is None:
+            continue
+        t = getattr(x, "temperature", 150.0)
+        for call in (lambda: a.saturation_pressure(t * 0.83 + 11.0), lambda: a.gas_density(t * 1.21 + 3.0),
+                     lambda: a.enthalpy_liquefaction(press=a.p_triple() * 3.7), lambda: a.liquid_density(t * 0.9 + 7.0)):
+            try:
+                call()
+            except Exception:
+                pass
+
+
+# --------------------------------------------------------------------------- fixtures
+def data_dir():
+    p = os.path.join(REPO, "docs", "examples", "data")
+    return p if os.path.isdir(p) else "/repo/docs/examples/data"
+
+
+N2_FILES = {"mcm": "MCM-41 N2 77.355.json", "nay": "NaY N2 77.355.json", "sio": "SiO2 N2 77.355.json", "tak": "Takeda 5A N2 77.355.json",
+            "uio": "UiO-66(Zr) N2 77.355.json"}
+OTHER_FILES = {"b298": "isosteric/BAX 1500 - Isosteric Heat - 298.json", "b323": "isosteric/BAX 1500 - Isosteric Heat - 323.json",
+               "b348": "isosteric/BAX 1500 - Isosteric Heat - 348.json", "ch4": "iast/MOF-5(Zn) - IAST - CH4.json",
+               "c2h6": "iast/MOF-5(Zn) - IAST - C2H6.json", "hkust": "calorimetry/HKUST-1(Cu) KRICT.json", "tco2": "calorimetry/Takeda 5A Test CO2.json"}
+
+
+MATERIAL = "purity_mat"
+
+
+def own_material():
+    """a registered material with density and molar mass that no other part of the check has touched before"""
+    from .units_common import custom_material
+    return custom_material(name=MATERIAL)
+
+
+class Fixtures:
+    def __init__(self, scratch):
+        self.scratch = scratch
+        self._text = {}
+        self._kernels = None
+        self._db = None
+
+    def load(self, key):
+        import pygaps.parsing as pgp
+        if key not in self._text:
+            rel = "characterisation/" + N2_FILES[key] if key in N2_FILES else OTHER_FILES[key]
+            with open(os.path.join(data_dir(), rel), encoding="utf8") as f:
+                self._text[key] = f.read()
+        return pgp.isotherm_from_json(self._text[key])
+
+    def small(self, key, n=18):
+        """adsorption branch thinned to about n points (keeps first and last)"""
+        import pygaps
+        iso = self.load(key)
+        d = iso.data_raw
+        ads = d.loc[d["branch"] == 0]
+        idx = sorted(set(numpy.linspace(0, len(ads) - 1, n).round().astype(int).tolist()))
+        dd = ads.iloc[idx].reset_index(drop=True)
+        return pygaps.PointIsotherm(isotherm_data=dd, pressure_key=iso.pressure_key, loading_key=iso.loading_key, **iso.to_dict())
+
+    def syn(self, units=None):
+        """synthetic N2 isotherm with a desorption branch, an extra column, metadata, on a registered material with density / molar mass"""
+        from .iso_common import make_point
+        own_material()
+        s = {"pm": "absolute", "pu": "bar", "lb": "molar", "lu": "mmol", "mb": "mass", "mu": "g", "tu": "K"}
+        s.update(units or {})
+        p = [0.05, 0.1, 0.18, 0.25, 0.34, 0.5, 0.72, 0.9, 0.8, 0.6, 0.45, 0.3, 0.15, 0.07]
+        l = [1.0, 1.8, 2.9, 3.6, 4.2, 4.9, 5.4, 5.7, 5.65, 5.4, 5.1, 4.5, 3.1, 1.7]
+        return make_point(s, "nitrogen", MATERIAL, 77.344, p, l, branch=[0] * 8 + [1] * 6,
+                          extra={"enthalpy": [15.0 - 0.6 * i for i in range(14)]}, meta={"operator": "verif", "batch": 7, "ratio": 0.25})
+
+    def model(self, key, name, **kw):
+        import pygaps
+        base = self.syn() if key == "syn" else self.load(key)
+        return pygaps.ModelIsotherm.from_pointisotherm(base, model=name, **kw)
+
+    def kernels(self):
+        """two small user kernels cut out of the built-in one (fast fits); distinct pore-size grids"""
+        if self._kernels is None:
+            import pandas
+            import pygaps.characterisation.psd_kernel as pk
+            src = pk.KERNELS["DFT-N2-77K-carbon-slit"]
+            k = pandas.read_csv(src, index_col=0)
+            out = []
+            for i, cols in enumerate((list(k.columns[0::9]), list(k.columns[4::9]))):
+                path = os.path.join(self.scratch, f"kernel{i}.csv")
+                k[cols].to_csv(path)
+                out.append(path)
+            self._kernels = out
+        return self._kernels
+
+    def prepare_db(self):
+        """template = the database shipped with the library (adsorbates, no isotherms) + a row for the fixture material, written
+        with plain SQL so that no library call touches the fixture objects outside a recorded window"""
+        import sqlite3
+        import pygaps.data
+        self._db = os.path.join(self.scratch, "template.db")
+        shutil.copyfile(pygaps.data.DATABASE, self._db)
+        con = sqlite3.connect(self._db)
+        try:
+            con.execute("INSERT INTO materials (name) VALUES ('" + MATERIAL + "')")
+            con.commit()
+        finally:
+            con.close()
+        self._n = 0
+
+    def db(self):
+        """a fresh copy of the template database"""
+        if self._db is None:
+            raise MachineryError("database template not prepared")
+        self._n += 1
+        path = os.path.join(self.scratch, f"db{self._n}.db")
+        shutil.copyfile(self._db, path)
+        return path
+
+
+def dump_db(path):
+    import sqlite3
+    con = sqlite3.connect(path)
+    try:
+        rows = []
+        for t in ("isotherms", "isotherm_properties", "isotherm_data"):
+            rows.append([t] + sorted(repr(r) for r in con.execute(f"SELECT * FROM {t}")))
+        return rows
+    finally:
+        con.close()
+
+
+def read_xls(path):
+    import xlrd
+    wb = xlrd.open_workbook(path)
+    out = []
+    for sh in wb.sheets():
+        out.append([sh.name] + [[repr(sh.cell_value(r, c)) for c in range(sh.ncols)] for r in range(sh.nrows)])
+    return out
+
+
+# --------------------------------------------------------------------------- cases
+class Case:
+    def __init__(self, site, variant, build, call, cache=True, cross=None, pre=None):
+        self.site, self.variant, self.build, self.call = site, variant, build, call
+        self.cache, self.cross, self.pre = cache, cross, pre
+
+
+def cases(fx, tier, seed):
+    import pygaps
+    import pygaps.characterisation as pgc
+    import pygaps.iast as pgi
+    import pygaps.modelling as pgm
+    import pygaps.parsing as pgp
+    import pygaps.characterisation.models_thickness as mt
+    import pygaps.characterisation.psd_kernel as pk
+    from pygaps.graphing.isotherm_graphs import plot_iso
+    thorough = tier == "thorough"
+    cs = []
+
+    def add(site, variant, build, call, **kw):
+        cs.append(Case(site, variant, build, call, **kw))
+
+    def one(key, small=None):
+        if key == "syn":
+            return lambda: {"isotherm": fx.syn()}
+        if small:
+            return lambda: {"isotherm": fx.small(key, small)}
+        return lambda: {"isotherm": fx.load(key)}
+
+    n2keys = list(N2_FILES) if thorough else [["mcm", "tak", "sio", "uio", "nay"][seed % 5]]
+    SIO2, CB = "SiO2 Jaroniec/Kruk/Olivier", "carbon black Kruk/Jaroniec/Gadkaree"
+
+    def load_std(name):
+        return lambda o: mt.load_std_isotherm({SIO2: "SiO2_JKO", CB: "CB_KJG"}[name])
+
+    # ---- surface area, t-plot, alpha-s, DR/DA
+    for k in sorted(set(n2keys + ["mcm"])):
+        add("area_BET", k, one(k), lambda o: pgc.area_BET(o["isotherm"]))
+        add("area_langmuir", k, one(k), lambda o: pgc.area_langmuir(o["isotherm"]))
+        add("t_plot", k + ":Harkins/Jura", one(k), lambda o: pgc.t_plot(o["isotherm"]))
+        add("dr_plot", k, one(k), lambda o: pgc.dr_plot(o["isotherm"]))
+        add("da_plot", k + ":exp=2.3", one(k), lambda o: pgc.da_plot(o["isotherm"], exp=2.3))
+        add("initial_henry_virial", k, one(k), lambda o: pgc.initial_henry_virial(o["isotherm"]))
+    add("area_BET", "sio:des,limits", one("sio"), lambda o: pgc.area_BET(o["isotherm"], branch="des", p_limits=(0.05, 0.3)))
+    add("area_BET", "model:BET(sio)", lambda: {"isotherm": fx.model("sio", "BET")}, lambda o: pgc.area_BET(o["isotherm"]))
+    add("area_langmuir", "syn:relative limits", one("syn"), lambda o: pgc.area_langmuir(o["isotherm"], p_limits=(0.05, 0.9)))
+    add("t_plot", "mcm:Halsey,limits", one("mcm"), lambda o: pgc.t_plot(o["isotherm"], thickness_model="Halsey", t_limits=(0.3, 0.8)))
+    add("t_plot", "mcm:SiO2 standard isotherm", one("mcm"), lambda o: pgc.t_plot(o["isotherm"], thickness_model=SIO2), cross=load_std(CB))
+    add("t_plot", "sio:carbon black standard isotherm", one("sio"), lambda o: pgc.t_plot(o["isotherm"], thickness_model=CB), cross=load_std(SIO2))
+    add("alpha_s", "mcm vs model BET(sio)", lambda: {"isotherm": fx.load("mcm"), "reference": fx.model("sio", "BET")},
+        lambda o: pgc.alpha_s(o["isotherm"], o["reference"]))
+    add("alpha_s", "mcm vs mcm,limits", lambda: {"isotherm": fx.load("mcm"), "reference": fx.load("mcm")},
+        lambda o: pgc.alpha_s(o["isotherm"], o["reference"], t_limits=(0.7, 1.0)))
+    add("alpha_s", "mcm vs sio (points; raises in range check)", lambda: {"isotherm": fx.load("mcm"), "reference": fx.load("sio")},
+        lambda o: pgc.alpha_s(o["isotherm"], o["reference"], reference_area="langmuir"))
+    add("da_plot", "tak:exp=None", one("tak", 30), lambda o: pgc.da_plot(o["isotherm"]))
+    add("dr_plot", "tak:limits", one("tak"), lambda o: pgc.dr_plot(o["isotherm"], p_limits=(1e-5, 0.1)))
+    add("initial_henry_slope", "mcm", one("mcm"), lambda o: pgc.initial_henry_slope(o["isotherm"]))
+    add("initial_henry_slope", "syn:limits", one("syn"), lambda o: pgc.initial_henry_slope(o["isotherm"], max_adjrms=0.1, p_limits=(0, 0.6)))
+    if thorough:
+        for k in ("tak", "uio"):
+            add("initial_henry_slope", k, one(k), lambda o: pgc.initial_henry_slope(o["isotherm"]))
+
+    # ---- mesopore PSD
+    for m in ("pygaps-DH", "BJH", "DH"):
+        add("psd_mesoporous", f"mcm:{m}", one("mcm"), lambda o, m=m: pgc.psd_mesoporous(o["isotherm"], psd_model=m))
+    add("psd_mesoporous", "mcm:ads,KJS,SiO2 standard", one("mcm"),
+        lambda o: pgc.psd_mesoporous(o["isotherm"], branch="ads", kelvin_model="Kelvin-KJS", thickness_model=SIO2), cross=load_std(CB))
+    add("psd_mesoporous", "mcm:des,carbon black standard", one("mcm"),
+        lambda o: pgc.psd_mesoporous(o["isotherm"], psd_model="DH", thickness_model=CB), cross=load_std(SIO2))
+    add("psd_mesoporous", "mcm:thickness = isotherm", lambda: {"isotherm": fx.load("mcm"), "thickness": fx.load("sio")},
+        lambda o: pgc.psd_mesoporous(o["isotherm"], thickness_model=o["thickness"]))
+    if thorough:
+        for g in ("slit", "cylinder", "halfopen-cylinder", "sphere"):
+            for b in ("ads", "des"):
+                add("psd_mesoporous", f"mcm:{g},{b}", one("mcm"), lambda o, g=g, b=b: pgc.psd_mesoporous(o["isotherm"], pore_geometry=g, branch=b))
+        add("psd_mesoporous", "sio:limits", one("sio"), lambda o: pgc.psd_mesoporous(o["isotherm"], p_limits=(0.3, 0.95)))
+
+    # ---- micropore PSD (HK family): small inputs, the cylinder / RY variants integrate numerically
+    micro = [("HK", "slit"), ("HK-CY", "slit"), ("RY", "slit"), ("RY-CY", "slit"), ("HK", "cylinder"), ("HK", "sphere")]
+    if thorough:
+        micro = [(m, g) for m in ("HK", "HK-CY", "RY", "RY-CY") for g in ("slit", "cylinder", "sphere")]
+    for m, g in micro:
+        n = 10 if (g == "cylinder" and m.startswith("RY")) else 18
+        add("psd_microporous", f"tak:{m},{g}", one("tak", n), lambda o, m=m, g=g: pgc.psd_microporous(o["isotherm"], psd_model=m, pore_geometry=g))
+    add("psd_microporous", "uio:HK,AlSiOxideIon", one("uio", 18), lambda o: pgc.psd_microporous(o["isotherm"], material_model="AlSiOxideIon"))
+
+    # ---- kernel fitting: user kernels cut from the built-in one (quick); the built-in kernel itself in thorough
+    def dft(kernel, **kw):
+        return lambda o: pgc.psd_dft(o["isotherm"], kernel=kernel, **kw)
+
+    def load_kernel(i):
+        return lambda o: pk._load_kernel(fx.kernels()[i])
+    add("psd_dft", "tak:user kernel A", one("tak", 14), lambda o: pgc.psd_dft(o["isotherm"], kernel=fx.kernels()[0]), cross=load_kernel(1))
+    add("psd_dft", "tak:user kernel B,bspline=0", one("tak", 14), lambda o: pgc.psd_dft(o["isotherm"], kernel=fx.kernels()[1], bspline_order=0), cross=load_kernel(0))
+    if thorough:
+        add("psd_dft", "tak:built-in kernel", one("tak", 14), dft("DFT-N2-77K-carbon-slit"), cross=load_kernel(0))
+        add("psd_dft", "uio:built-in kernel,limits", one("uio", 20), dft("DFT-N2-77K-carbon-slit", p_limits=(1e-5, 0.5)), cross=load_kernel(1))
+
+    # ---- enthalpies
+    def iso3():
+        return {"isotherm0": fx.load("b298"), "isotherm1": fx.load("b323"), "isotherm2": fx.load("b348")}
+    add("isosteric_enthalpy", "BAX 298/323/348", iso3, lambda o: pgc.isosteric_enthalpy([o["isotherm0"], o["isotherm1"], o["isotherm2"]]))
+    add("isosteric_enthalpy", "BAX reversed,points", iso3,
+        lambda o: pgc.isosteric_enthalpy([o["isotherm2"], o["isotherm1"], o["isotherm0"]], loading_points=[0.5, 1.0, 2.0]))
+    add("isosteric_enthalpy", "models", lambda: {f"isotherm{i}": fx.model(k, "Langmuir") for i, k in enumerate(("b298", "b323", "b348"))},
+        lambda o: pgc.isosteric_enthalpy([o["isotherm0"], o["isotherm1"], o["isotherm2"]], loading_points=[0.5, 1.0, 2.0]))
+    for k in ("hkust", "tco2", "syn"):
+        add("initial_enthalpy_point", k, one(k), lambda o: pgc.initial_enthalpy_point(o["isotherm"], "enthalpy"))
+        if k != "syn" or thorough:
+            add("initial_enthalpy_comp", k, one(k), lambda o: pgc.initial_enthalpy_comp(o["isotherm"], "enthalpy"))
+    add("initial_enthalpy_point", "mcm:no such column", one("mcm"), lambda o: pgc.initial_enthalpy_point(o["isotherm"], "enthalpy"))
+    add("enthalpy_sorption_whittaker", "ch4:Toth (bar)", one("ch4"), lambda o: pgc.enthalpy_sorption_whittaker(o["isotherm"], model="Toth"))
+    add("enthalpy_sorption_whittaker", "b298:Langmuir,loading", one("b298"),
+        lambda o: pgc.enthalpy_sorption_whittaker(o["isotherm"], model="Langmuir", loading=[0.5, 1.0, 2.0]))
+
+    def in_pa(key):
+        def b():
+            iso = fx.load(key)
+            iso.convert_pressure(unit_to="Pa")
+            return {"isotherm": iso}
+        return b
+    add("enthalpy_sorption_whittaker", "tco2:Toth (already Pa)", in_pa("tco2"), lambda o: pgc.enthalpy_sorption_whittaker(o["isotherm"], model="Toth", loading=[1.0, 2.0]))
+
+    def model_pa(key, name):
+        def b():
+            iso = fx.load(key)
+            iso.convert_pressure(unit_to="Pa")
+            return {"isotherm": pygaps.ModelIsotherm.from_pointisotherm(iso, model=name)}
+        return b
+    add("enthalpy_sorption_whittaker", "model Toth(ch4) in Pa", model_pa("ch4", "Toth"), lambda o: pgc.enthalpy_sorption_whittaker(o["isotherm"]))
+    add("enthalpy_sorption_whittaker", "model Henry: refused", model_pa("ch4", "Henry"), lambda o: pgc.enthalpy_sorption_whittaker(o["isotherm"]))
+
+    # ---- model fitting
+    quick_models = ["Henry", "Langmuir", "DSLangmuir", "Toth", "Virial"]
+    for name in (list(pgm._MODELS) if thorough else quick_models):
+        add("model_iso", f"ch4:{name}", one("ch4"), lambda o, name=name: pgm.model_iso(o["isotherm"], model=name))
+    for name in ("BET", "GAB", "DA") if thorough else ("BET",):
+        add("model_iso", f"mcm:{name}", one("mcm", 25), lambda o, name=name: pgm.model_iso(o["isotherm"], model=name))
+    add("model_iso", "ch4:guess", one("ch4"), lambda o: pgm.model_iso(o["isotherm"], model="guess"))
+    add("model_iso", "syn:[Henry,Langmuir,Toth] (material with properties)", one("syn"), lambda o: pgm.model_iso(o["isotherm"], model=["Henry", "Langmuir", "Toth"]))
+    add("model_iso", "syn:des,Langmuir,guess+bounds", one("syn"),
+        lambda o: pgm.model_iso(o["isotherm"], branch="des", model="Langmuir", param_guess={"K": 3.0, "n_m": 6.0}, param_bounds={"K": (0.0, 100.0), "n_m": (0.0, 50.0)}))
+    add("ModelIsotherm.from_pointisotherm", "c2h6:Langmuir", one("c2h6"), lambda o: pygaps.ModelIsotherm.from_pointisotherm(o["isotherm"], model="Langmuir"))
+    add("ModelIsotherm.from_pointisotherm", "c2h6:guess", one("c2h6"), lambda o: pygaps.ModelIsotherm.from_pointisotherm(o["isotherm"], model="guess"))
+    add("ModelIsotherm.from_isotherm", "syn:Toth", one("syn"),
+        lambda o: pygaps.ModelIsotherm.from_isotherm(o["isotherm"], pressure=o["isotherm"].pressure(branch="ads"), loading=o["isotherm"].loading(branch="ads"), model="Toth"))
+
+    def guess_arrays(o):
+        iso = o["isotherm"]
+        return pygaps.ModelIsotherm.guess(pressure=iso.pressure(branch="ads"), loading=iso.loading(branch="ads"), models=["Henry", "Langmuir", "Freundlich"],
+                                          material=str(iso.material), adsorbate=str(iso.adsorbate), temperature=iso.temperature, **iso.units)
+    add("ModelIsotherm.guess", "syn:arrays", one("syn"), guess_arrays)
+
+    # a material handed over as a dictionary (name + properties) is a material passed in, too
+    def matdict():
+        return {"isotherm": fx.syn(), "material": {"name": MATERIAL, "density": 1.737, "molar_mass": 419.3}}
+
+    def fit_kw(o):
+        iso = o["isotherm"]
+        return dict(pressure=iso.pressure(branch="ads"), loading=iso.loading(branch="ads"), material=o["material"], adsorbate=str(iso.adsorbate),
+                    temperature=iso.temperature, **iso.units)
+    add("ModelIsotherm.guess", "syn:arrays, material given as dict", matdict, lambda o: pygaps.ModelIsotherm.guess(models=["Henry", "Langmuir"], **fit_kw(o)))
+    add("ModelIsotherm", "syn:arrays, Langmuir, material given as dict", matdict, lambda o: pygaps.ModelIsotherm(model="Langmuir", **fit_kw(o)))
+    add("PointIsotherm.from_modelisotherm", "Langmuir(ch4)", lambda: {"isotherm": fx.model("ch4", "Langmuir")},
+        lambda o: pygaps.PointIsotherm.from_modelisotherm(o["isotherm"], pressure_points=[0.5, 1.0, 2.0, 4.0]))
+
+    # ---- IAST
+    def two(model=None):
+        if model:
+            return lambda: {"isotherm0": fx.model("ch4", model), "isotherm1": fx.model("c2h6", model)}
+        return lambda: {"isotherm0": fx.load("ch4"), "isotherm1": fx.load("c2h6")}
+
+    def pair(o):
+        return [o["isotherm0"], o["isotherm1"]]
+    for tag, b in (("points", two()), ("Langmuir models", two("Langmuir"))) + ((("Toth models", two("Toth")),) if thorough else ()):
+        add("iast_point", tag, b, lambda o: pgi.iast_point(pair(o), [0.4, 0.6]))
+        add("iast_point_fraction", tag, b, lambda o: pgi.iast_point_fraction(pair(o), [0.5, 0.5], 1.0))
+        add("reverse_iast", tag, b, lambda o: pgi.reverse_iast(pair(o), [0.3, 0.7], 1.0))
+        add("iast_binary_svp", tag, b, lambda o: pgi.iast_binary_svp(pair(o), [0.5, 0.5], [0.2, 0.5, 1.0, 2.0]))
+        add("iast_binary_vle", tag, b, lambda o: pgi.iast_binary_vle(pair(o), 1.0, npoints=6))
+    add("iast_point_fraction", "points:verbose plot", two(), lambda o: pgi.iast_point_fraction(pair(o), [0.5, 0.5], 1.0, verbose=True))
+    add("iast_point", "point + Virial model: refused", lambda: {"isotherm0": fx.model("ch4", "Virial"), "isotherm1": fx.load("c2h6")},
+        lambda o: pgi.iast_point(pair(o), [0.4, 0.6]))
+
+    # ---- exports
+    expo = [("mcm", one("mcm")), ("syn", one("syn")), ("model Langmuir(ch4)", lambda: {"isotherm": fx.model("ch4", "Langmuir")}),
+            ("model DSLangmuir(syn)", lambda: {"isotherm": fx.model("syn", "DSLangmuir")})]
+    if thorough:
+        expo += [(k, one(k)) for k in ("tak", "hkust", "b323")]
+    ctr = [0]
+
+    def tmp(ext):
+        ctr[0] += 1
+        return os.path.join(fx.scratch, f"export{ctr[0]}.{ext}")
+
+    def to_file(method, ext, reader):
+        def call(o):
+            p = tmp(ext)
+            getattr(o["isotherm"], method)(p)
+            return reader(p)
+        return call
+
+    def read_text(p):
+        with open(p, encoding="utf8") as f:
+            return f.read()
+    for tag, b in expo:
+        add("isotherm_to_json", tag, b, lambda o: o["isotherm"].to_json(), cache=False)
+        add("isotherm_to_csv", tag, b, lambda o: o["isotherm"].to_csv(), cache=False)
+        add("isotherm_to_aif", tag, b, lambda o: o["isotherm"].to_aif(), cache=False)
+        add("isotherm_to_xl", tag, b, to_file("to_xl", "xls", read_xls), cache=False)
+        add("to_dict", tag, b, lambda o: o["isotherm"].to_dict(), cache=False)
+        add("print_info", tag, b, lambda o: o["isotherm"].print_info(), cache=False)
+        add("isotherm.plot", tag, b, lambda o: o["isotherm"].plot(), cache=False)
+    add("isotherm_to_json", "syn:to file,indent", one("syn"), to_file("to_json", "json", read_text), cache=False)
+    add("isotherm_to_csv", "syn:to file", one("syn"), to_file("to_csv", "csv", read_text), cache=False)
+    add("isotherm_to_aif", "syn:to file", one("syn"), to_file("to_aif", "aif", read_text), cache=False)
+    add("str/repr", "syn", one("syn"), lambda o: [str(o["isotherm"]), repr(o["isotherm"])], cache=False)
+
+    def to_db(**kw):
+        def call(o):
+            p = fx.db()
+            pgp.isotherm_to_db(o["isotherm"], db_path=p, verbose=False, **kw)
+            return dump_db(p)
+        return call
+    add("isotherm_to_db", "syn (registered material)", one("syn"), to_db(), cache=False)
+    add("isotherm_to_db", "syn:no autoinsert", one("syn"), to_db(autoinsert_material=False, autoinsert_adsorbate=False), cache=False)
+    add("isotherm_to_db", "model Langmuir(syn)", lambda: {"isotherm": fx.model("syn", "Langmuir")}, to_db(), cache=False)
+    add("isotherm_to_db", "syn in relative pressure: refused", lambda: {"isotherm": fx.syn({"pm": "relative", "pu": "none"})}, to_db(), cache=False)
+
+    # ---- plots with foreign units
+    add("plot_iso", "mcm+tak:absolute kPa, cm3(STP)", lambda: {"isotherm0": fx.load("mcm"), "isotherm1": fx.load("tak")},
+        lambda o: plot_iso([o["isotherm0"], o["isotherm1"]], pressure_mode="absolute", pressure_unit="kPa", loading_unit="cm3(STP)", logx=True))
+    add("plot_iso", "syn:relative%, mass/volume, enthalpy axis", one("syn"),
+        lambda o: plot_iso(o["isotherm"], pressure_mode="relative%", loading_basis="mass", loading_unit="mg", material_basis="volume", material_unit="cm3",
+                           y2_data="enthalpy", branch="all"), cache=False)
+    add("plot_iso", "point + model", lambda: {"isotherm0": fx.load("ch4"), "isotherm1": fx.model("ch4", "Langmuir")},
+        lambda o: plot_iso([o["isotherm0"], o["isotherm1"]], pressure_unit="Pa", branch="ads"), cache=False)
+    add("isotherm.plot", "syn:units", one("syn"), lambda o: o["isotherm"].plot(pressure_unit="mbar", loading_basis="volume_gas", loading_unit="cm3"))
+    add("area_BET", "mcm:verbose plot", one("mcm"), lambda o: pgc.area_BET(o["isotherm"], verbose=True))
+    add("model_iso", "ch4:Langmuir verbose plot", one("ch4"), lambda o: pgm.model_iso(o["isotherm"], model="Langmuir", verbose=True))
+
+    # ---- data accessors with foreign units
+    FOREIGN_L = dict(loading_basis="mass", loading_unit="mg", material_basis="volume", material_unit="cm3")
+    acc = [
+        ("pressure", "kPa", lambda i: i.pressure(pressure_unit="kPa")),
+        ("pressure", "relative,des,limits", lambda i: i.pressure(pressure_mode="relative", branch="des", limits=(0.1, 0.8))),
+        ("pressure", "relative%,indexed", lambda i: i.pressure(pressure_mode="relative%", indexed=True)),
+        ("loading", "mass mg per cm3", lambda i: i.loading(**FOREIGN_L)),
+        ("loading", "volume_liquid,molar material", lambda i: i.loading(loading_basis="volume_liquid", loading_unit="cm3", material_basis="molar", material_unit="mmol", branch="ads")),
+        ("loading", "fraction,limits", lambda i: i.loading(loading_basis="fraction", limits=(0.0, 0.1))),
+        ("other_data", "enthalpy,des", lambda i: i.other_data("enthalpy", branch="des", limits=(12.0, None))),
+        ("data", "ads", lambda i: i.data(branch="ads")),
+        ("loading_at", "kPa -> cm3(STP)/kg", lambda i: i.loading_at(30.0, pressure_unit="kPa", loading_unit="cm3(STP)", material_unit="kg")),
+        ("loading_at", "relative, des, cubic, volume_gas", lambda i: i.loading_at([0.2, 0.4], pressure_mode="relative", branch="des", interpolation_type="cubic",
+                                                                                      loading_basis="volume_gas", loading_unit="cm3")),
+        ("loading_at", "fill,percent", lambda i: i.loading_at(5.0, pressure_unit="bar", interp_fill=0.0, loading_basis="percent")),
+        ("pressure_at", "mol/kg -> relative%", lambda i: i.pressure_at(0.003, loading_unit="mol", pressure_mode="relative%")),
+        ("pressure_at", "mass mg per cm3 -> Pa, des", lambda i: i.pressure_at(200.0, branch="des", pressure_unit="Pa", **FOREIGN_L)),
+        ("spreading_pressure_at", "Pa", lambda i: i.spreading_pressure_at(5.0e4, pressure_unit="Pa")),
+        ("spreading_pressure_at", "relative,des,extrapolate", lambda i: i.spreading_pressure_at(0.95, pressure_mode="relative", branch="des", interp_fill="extrapolate")),
+    ]
+    for site, tag, f in acc:
+        add(f"PointIsotherm.{site}", "syn:" + tag, one("syn"), lambda o, f=f: f(o["isotherm"]))
+    macc = [
+        ("pressure", "kPa,points", lambda i: i.pressure(points=7, pressure_unit="kPa")),
+        ("loading", "mass mg per cm3", lambda i: i.loading(points=7, **FOREIGN_L)),
+        ("loading_at", "kPa -> cm3(STP)/kg", lambda i: i.loading_at([10.0, 30.0], pressure_unit="kPa", loading_unit="cm3(STP)", material_unit="kg")),
+        ("loading_at", "relative -> fraction", lambda i: i.loading_at(0.3, pressure_mode="relative", loading_basis="fraction")),
+        ("pressure_at", "mol/kg -> relative%", lambda i: i.pressure_at(0.003, loading_unit="mol", material_unit="kg", pressure_mode="relative%")),
+        ("spreading_pressure_at", "Pa", lambda i: i.spreading_pressure_at([2.0e4, 5.0e4], pressure_unit="Pa")),
+    ]
+    for mname in ("Langmuir", "Toth") + (("DSLangmuir", "Quadratic", "JensenSeaton", "Freundlich", "BET") if thorough else ()):
+        for site, tag, f in macc:
+            add(f"ModelIsotherm.{site}", f"{mname}(syn):{tag}", lambda mname=mname: {"isotherm": fx.model("syn", mname)}, lambda o, f=f: f(o["isotherm"]))
+
+    # ---- adsorbate / material objects passed directly
+    add("Adsorbate.to_dict", "nitrogen", lambda: {"adsorbate": pygaps.Adsorbate.find("nitrogen")}, lambda o: o["adsorbate"].to_dict(), cache=False)
+    add("Adsorbate.print_info", "carbon dioxide", lambda: {"adsorbate": pygaps.Adsorbate.find("carbon dioxide")}, lambda o: o["adsorbate"].print_info(), cache=False)
+    add("Material.to_dict", MATERIAL, lambda: {"material": pygaps.Material.find(MATERIAL)}, lambda o: [o["material"].to_dict(), o["material"].density, o["material"].get_prop("molar_mass")], cache=False)
+    return cs
+
+
+# thermodynamic property methods: (name, call(adsorbate, T))
+def thermo_methods():
+    return [
+        ("saturation_pressure", lambda a, t: a.saturation_pressure(t)),
+        ("saturation_pressure[bar]", lambda a, t: a.saturation_pressure(t, unit="bar")),
+        ("surface_tension", lambda a, t: a.surface_tension(t)),
+        ("liquid_density", lambda a, t: a.liquid_density(t)),
+        ("liquid_molar_density", lambda a, t: a.liquid_molar_density(t)),
+        ("gas_density", lambda a, t: a.gas_density(t)),
+        ("gas_molar_density", lambda a, t: a.gas_molar_density(t)),
+        ("enthalpy_liquefaction(T)", lambda a, t: a.enthalpy_liquefaction(temp=t)),
+        ("enthalpy_vaporisation(p)", lambda a, t: a.enthalpy_vaporisation(press=a.p_triple() * (1.0 + t / 10.0))),
+        ("molar_mass", lambda a, t: a.molar_mass()),
+        ("p_triple/t_triple/p_critical/t_critical", lambda a, t: [a.p_triple(), a.t_triple(), a.p_critical(), a.t_critical()]),
+    ]
+
+
+def thermo_cases(tier, seed):
+    """every ordered pair (previous property call at one temperature, property call at another) on a shared Adsorbate,
+    compared with the same call on a fresh Adsorbate object"""
+    import pygaps
+    thorough = tier == "thorough"
+    names = ["nitrogen", "carbon dioxide", "methane", "n-butane", "argon", "water"]
+    names = names if thorough else [names[seed % len(names)], names[(seed + 3) % len(names)]]
+    ms = thermo_methods()
+    cs = []
+    for n in names:
+        ads = pygaps.Adsorbate.find(n)
+        t3 = ads.t_triple()
+        tc = ads.t_critical()
+        temps = [t3 + f * (tc - t3) for f in ((0.15, 0.5, 0.85) if thorough else (0.2, 0.7))] + [tc * 1.2]    # the last one is supercritical: refused by most
+        for (n1, f1) in ms:
+            for t1 in temps:
+                for (n2, f2) in ms:
+                    for t2 in temps:
+                        if not thorough and (hash_small(n1, t1, n2, t2) + seed) % 4:
+                            continue
+                        cs.append(Case(f"Adsorbate.{n2.split('(')[0].split('[')[0].split('/')[0]}", f"{n}: {n2}@{t2:.1f} after {n1}@{t1:.1f}",
+                                       (lambda ads=ads: {"adsorbate": ads}),
+                                       (lambda o, f2=f2, t2=t2: f2(o["adsorbate"], t2)), cache=False,
+                                       pre=(lambda o, f1=f1, t1=t1: _quiet(lambda: f1(o["adsorbate"], t1)))))
+    return cs
+
+
+def hash_small(*a):
+    return int(hashlib.sha1(repr(a).encode()).hexdigest()[:6], 16)
+
+
+def _quiet(f):
+    try:
+        f()
+    except Exception:
+        pass
+
+
+# --------------------------------------------------------------------------- recorder
+COPY_SITE = "copy through to_dict() and the constructor"
+
+
+def record(case):
+    """-> list of (event, info).  The recorder's own copying (to_dict(), data_raw.copy(), constructors) is a read-only use of the
+    arguments as well: it is bracketed by snapshots and logged as an event of its own when anything moved."""
+    objs = case.build()
+    if case.pre:
+        case.pre(objs)
+
+    def snap():
+        s = {r: obs_any(x) for r, x in objs.items()}
+        s["globals"] = obs_globals()
+        return s
+    recs = []
+    s0 = snap()
+    p0 = {r: peek(x) for r, x in objs.items()}
+    failure = None
+    try:
+        fresh_objs = {r: fresh(x) for r, x in objs.items()}
+        cache_objs = [{r: fresh(x) for r, x in objs.items()} for _ in range(2)] if case.cache else []
+    except Exception as e:
+        failure = e
+    s1 = snap()
+    if s1 != s0 or failure is not None:
+        triv = {"kind": "value", "shape": "-"}
+        recs.append(({"site": COPY_SITE, "variant": f"before {case.site} [{case.variant}]", "cache": False, "before": s0, "after1": s1, "after2": s1,
+                      "out": {"first": triv, "second": triv, "fresh": triv}, "dist": {"second": dec_enc(0.0), "fresh": dec_enc(0.0)}},
+                     {"peek": {"before": p0, "after1": {r: peek(x) for r, x in objs.items()}}, "copy_failed": repr(failure)[:300] if failure else None}))
+    if failure is not None:
+        if s1 != s0:
+            raise Damaged(recs, failure)
+        raise failure
+    ev = {"site": case.site, "variant": case.variant, "cache": bool(case.cache)}
+    peeks = {"before": {r: peek(x) for r, x in objs.items()}}
+    ev["before"] = s1
+    out = {"first": outcome_of(lambda: case.call(objs))}
+    ev["after1"] = snap()
+    peeks["after1"] = {r: peek(x) for r, x in objs.items()}
+    out["second"] = outcome_of(lambda: case.call(objs))
+    ev["after2"] = snap()
+    out["fresh"] = outcome_of(lambda: case.call(fresh_objs))
+    if case.cache:
+        clear_hidden()
+        out["cold"] = outcome_of(lambda: case.call(cache_objs[0]))
+        clear_hidden()
+        perturb_backend(cache_objs[1])
+        if case.cross:
+            case.cross(cache_objs[1])
+        out["cross"] = outcome_of(lambda: case.call(cache_objs[1]))
+    ev["out"] = {k: {"kind": v["kind"], "shape": v["shape"]} for k, v in out.items()}
+    ev["dist"] = {k: dec_enc(min(distance(out["first"], v), HUGE)) for k, v in out.items() if k != "first"}
+    info = {"outcomes": {k: v["text"] for k, v in out.items()}, "distances": {k: distance(out["first"], v) for k, v in out.items() if k != "first"}, "peek": peeks}
+    recs.append((ev, info))
+    return recs
+
+
+class Damaged(Exception):
+    """the recorder's own copying failed AND the arguments moved under it: the events so far carry the evidence"""
+
+    def __init__(self, recs, cause):
+        super().__init__(str(cause))
+        self.recs, self.cause = recs, cause
+
+
+def canaries():
+    """hand-made events with one corrupted field each, and what spec/PureTrace must answer: shows on every run that the
+    oracle is alive (a changed label, a different second outcome, a numeric drift beyond / within the tolerance, a dropped record)"""
+    o = {"kind": "PointIsotherm", "iso_id": "id0", "labels": "pressure_unit=bar", "data": "d0", "meta": "m0", "temperature": "77.0", "adsorbate": "a0", "material": "x0"}
+    g = {"kind": "globals", "adsorbates": "r0", "materials": "r1", "defaults": "r2"}
+    val = {"kind": "value", "shape": "s0"}
+    base = {"site": "canary", "variant": "-", "cache": True,
+            "before": {"isotherm": dict(o), "globals": dict(g)}, "after1": {"isotherm": dict(o), "globals": dict(g)}, "after2": {"isotherm": dict(o), "globals": dict(g)},
+            "out": {k: dict(val) for k in ("first", "second", "fresh", "cold", "cross")},
+            "dist": {k: dec_enc(0.0) for k in ("second", "fresh", "cold", "cross")}}
+    out = [(copy.deepcopy(base), set())]
+    c = copy.deepcopy(base)
+    c["after1"]["isotherm"]["labels"] = c["after2"]["isotherm"]["labels"] = "pressure_unit=Pa"
+    c["after1"]["isotherm"]["iso_id"] = c["after2"]["isotherm"]["iso_id"] = "id1"
+    out.append((c, {("unchanged", "labels", "first"), ("unchanged", "iso_id", "first")}))
+    c = copy.deepcopy(base)
+    c["after2"]["globals"]["defaults"] = "r9"
+    out.append((c, {("unchanged", "defaults", "second")}))
+    c = copy.deepcopy(base)
+    c["out"]["second"] = {"kind": "error", "shape": "CalculationError"}
+    out.append((c, {("repeat", "outcome", "second")}))
+    c = copy.deepcopy(base)
+    c["out"]["first"] = {"kind": "error", "shape": "ValueError"}
+    c["out"]["second"] = {"kind": "error", "shape": "ValueError"}
+    c["out"]["cold"] = {"kind": "error", "shape": "ValueError"}
+    c["out"]["cross"] = {"kind": "error", "shape": "CalculationError"}
+    out.append((c, {("fresh", "outcome", "fresh"), ("cache", "outcome", "cross")}))
+    c = copy.deepcopy(base)
+    c["dist"]["fresh"] = dec_enc(1e-9)
+    c["dist"]["cold"] = dec_enc(5e-13)          # inside the tolerance of spec/Pure.tla (1e-12)
+    c["dist"]["cross"] = dec_enc(3e-12)
+    out.append((c, {("fresh", "outcome", "fresh"), ("cache", "outcome", "cross")}))
+    c = copy.deepcopy(base)
+    del c["out"]["cross"]
+    out.append((c, "malformed"))
+    c = copy.deepcopy(base)
+    del c["after2"]["isotherm"]["data"]
+    out.append((c, "malformed"))
+    return out
+
+
+def check_canaries(answers, expected):
+    for i, (a, (ev, exp)) in enumerate(zip(answers, expected)):
+        got = "malformed" if not a["wellformed"] else {(f["clause"], f["what"], f["call"]) for f in a["fails"]}
+        if got != exp or (exp != "malformed" and a["ok"] != (not exp)):
+            raise MachineryError(f"spec/PureTrace answered {got} on canary event {i}, expected {exp}")
+
+
+def check_model(run, tier, seed):
+    """TLC: spec/Pure.tla exhaustively (must hold), and with each named hazard switched on (must be refuted)."""
+    res = tlc.must_pass("PureMC", env={"PURE_DEFECT": "none"}, timeout=600, workers=4)
+    defects = DEFECTS if tier == "thorough" else (DEFECTS[seed % len(DEFECTS)], DEFECTS[(seed + 2) % len(DEFECTS)])
+
+    def bad(d):
+        return d, tlc.check("PureMC", env={"PURE_DEFECT": d}, timeout=300, workers=1)
+    with ThreadPoolExecutor(max_workers=len(defects)) as ex:
+        for d, r in ex.map(bad, defects):
+            if r["ok"] or not any("violated" in e for e in r["errors"]):
+                raise MachineryError(f"spec/Pure.tla with hazard '{d}' switched on was not refuted by TLC (vacuous model?): {r['errors'][:2]}")
+    return res, defects
 
 
 def run_breadth(run, tier, seed):
-    run.set(breadth_entry_points=0)
+    import pygaps  # noqa: F401  (harness.common has put the tree under test on sys.path)
+    own_material()
+    t0 = time.time()
+    pool = ThreadPoolExecutor(max_workers=1)
+    model_job = pool.submit(check_model, run, tier, seed)          # TLC on the model runs beside the recording
+    scratch = tlc.scratch("purity-")
+    events, infos, cs = [], [], []
+    broken = None
+    try:
+        fx = Fixtures(scratch)
+        fx.prepare_db()
+        todo = cases(fx, tier, seed) + thermo_cases(tier, seed)
+        for case in todo:
+            try:
+                recs = record(case)
+            except Damaged as d:
+                for ev, info in d.recs:
+                    events.append(ev)
+                    infos.append(info)
+                    cs.append(Case(ev["site"], ev["variant"], None, None, cache=False))
+                broken = f"purity recorder could not copy the arguments of {case.site} [{case.variant}] after they were changed by the copying itself: {exc_class(d.cause)}: {str(d.cause)[:300]}"
+                break
+            except Exception as e:
+                # a step outside the call under test failed (fixture, fresh copy, snapshot).  On the unchanged tree this is a machinery
+                # failure; after an earlier call damaged shared objects it is a consequence of that damage: judge what was recorded first.
+                broken = f"purity recorder failed outside the call under test at {case.site} [{case.variant}]: {exc_class(e)}: {str(e)[:300]}"
+                break
+            for ev, info in recs:
+                events.append(ev)
+                infos.append(info)
+                cs.append(case if ev["site"] == case.site else Case(ev["site"], ev["variant"], None, None, cache=False))
+    finally:
+        clear_hidden()
+        shutil.rmtree(scratch, ignore_errors=True)
+    t_rec = time.time() - t0
+    try:
+        res, defects = model_job.result()
+    finally:
+        pool.shutdown(wait=True)
+    run.set(pure_model_states=res["distinct"], pure_model_transitions=res["states_generated"], pure_model_hazards_refuted=list(defects))
+    # the exhaustive numbers of both models (cache histories: spec/IsoCache, hidden-state model: spec/Pure) add up
+    run.set(states=run.cov.get("states", 0) + res["distinct"], transitions=run.cov.get("transitions", 0) + res["states_generated"])
+    inv = list(run.cov.get("tlc_invariants", [])) + ["Pure!Functional", "Pure!HiddenInvisible", "Pure!NeverStale", "Pure!ObservablyPure"]
+    run.set(tlc_invariants=inv)
+
+    can = canaries()
+    answers = tlc.oracle("PureTrace", [c for c, _ in can] + events, cfg="PureTrace", timeout=600)
+    check_canaries(answers[:len(can)], can)
+    answers = answers[len(can):]
+    run.set(breadth_oracle_canaries=len(can))
+    sites = set()
+    n_err = 0
+    reported0 = len(run.violations) + sum(h["count"] for h in run.known_hits.values())
+    for case, ev, info, ans in zip(cs, events, infos, answers):
+        if not ans["wellformed"]:
+            raise MachineryError(f"purity log: malformed event at {case.site} [{case.variant}]")
+        run.count(("breadth", case.site, case.variant))
+        sites.add(case.site)
+        if ev["out"]["first"]["kind"] == "error":
+            n_err += 1
+        # harness self-check: TLC and the recorder must agree on whether anything moved
+        moved = any(ev["before"][r] != ev["after1"][r] or ev["after1"][r] != ev["after2"][r] for r in ev["before"])
+        if moved != any(f["clause"] == "unchanged" for f in ans["fails"]):
+            raise MachineryError(f"purity log: TLC verdict and recorded snapshots disagree at {case.site} [{case.variant}]")
+        for f in ans["fails"]:
+            sig = {"site": case.site, "clause": f["clause"], "what": f["what"]}
+            if f["clause"] == "unchanged":
+                sig["role"] = "globals" if f["role"] == "globals" else ("argument" if not case.site.startswith("Adsorbate.") else "adsorbate")
+            else:
+                sig["first_outcome"] = ev["out"]["first"]["kind"] if ev["out"]["first"]["kind"] == "value" else "error:" + ev["out"]["first"]["shape"]
+                o = ev["out"][f["call"]]
+                sig["other_outcome"] = o["kind"] if o["kind"] == "value" else "error:" + o["shape"]
+                if f["clause"] == "cache":
+                    sig["hidden_state"] = f["call"]
+            detail = {"variant": case.variant, "failing": f, "event": {k: ev[k] for k in ("before", "after1", "after2", "out")}, **info}
+            run.violation(sig, detail)
+    if broken:
+        if len(run.violations) + sum(h["count"] for h in run.known_hits.values()) == reported0:
+            raise MachineryError(broken)
+        run.note(broken + " (recording stopped there; violations recorded before it are reported)")
+    run.add("traces_validated_against_impl", len(events))
+    run.set(breadth_entry_points=len(sites), breadth_events=len(events), breadth_events_raising=n_err, breadth_record_s=round(t_rec, 1))
+    if events:
+        k = next(i for i, c in enumerate(cs) if not c.site.startswith("Adsorbate."))
+        run.sample({"purity_event": {"site": events[k]["site"], "variant": events[k]["variant"], "before": events[k]["before"], "out": events[k]["out"], "dist": events[k]["dist"]},
+                    "tlc_verdict": answers[k]})
+    run.assume("breadth: outcomes are compared as (kind of error | discrete structure exactly, numeric payload to 1e-12 relative in max-norm per array)")
+    run.assume("breadth: a fresh equal object is rebuilt through the constructor from to_dict() and a copy of the data, with new Adsorbate and Material objects of equal content")
